@@ -8,8 +8,8 @@ vu = VerusUnit("c08_vehicle", "c08_vehicle", rlimit=60)
 em = VerusUnit("c08_energy_model", "c08_energy_model", rlimit=30)
 UNITS = [vu, em, soc]
 EXPLANATION = ("EnergyTraversalModel::traverse_edge / estimate_traversal / get_grade (unit c08_energy_model, verbatim): the vehicle is asked to consume energy for THIS edge -- its length in the service's distance unit, its grade from the grade table (0 without one), and speed = length in the speed unit's own distance unit / the time the time model added in the speed unit's own time unit; "
-               "vehicle_ops, PredictionModelRecord::predict (with and without cache), get_phev_energy, BEV/PHEV::consume_energy, BEV::best_case_energy, Energy::create extracted verbatim and "
-               "verified over the reals: energy = rate x adjustment x converted distance in the rate's energy unit; soc' = clamp(soc - 100*delta/capacity) in [0,100]; PHEV switch on entry soc; frame of the state vector")
+               "vehicle_ops, PredictionModelRecord::predict (with and without cache), get_phev_energy, ICE/BEV/PHEV::consume_energy, ICE/BEV::best_case_energy, Energy::create extracted verbatim and "
+               "verified over the reals: energy = rate x adjustment x converted distance in the rate's energy unit; soc' = clamp(soc - 100*delta/capacity) in [0,100]; PHEV switch on entry soc; an ICE vehicle accumulates the predicted energy of the edge in its liquid-fuel slot; frame of the state vector")
 NOT_DECIDED = ("update_from_query (serde_json) incl. rejection of a starting charge outside 0..100; the numeric predictions of the smartcore / interpolated models; "
-               "best_case_energy_state's unit handling; ICE")
+               "best_case_energy_state's unit handling")
 ASSUMPTIONS = ["A-REAL for the Verus unit (the Kani harness is bit-precise)", "StateModel accessors, prediction model, FloatCachePolicy as assumed contracts", "f64::clamp, &str->String as assumed contracts"]
